@@ -85,7 +85,8 @@ def lru_stems_from_parsed_url(parsed_url, suffix_aware=True):
         lru.append("u:" + user)
 
     # Password
-    if password:
+    # NOTE: an empty password ("user:@host") is still a password
+    if password is not None:
         lru.append("w:" + password)
     return lru
 
